@@ -1,6 +1,6 @@
 (* Run_C12.v — entry points evaluated by the correspondence harness for C12:
    local acceptance and peer acceptance give the same verdict.  No proofs here. *)
-From DV Require Export RightsSpec AuthzRemote LocalJson Run_C01 Run_C02.
+From DV Require Export RightsSpec AuthzRemote LocalJson NodeSize Run_C01 Run_C02.
 
 (* One local operation of author `me` on an instance A, and a peer B holding the same room
    definitions, the same data model and the same prior rows, to which the rows A writes are handed
@@ -16,7 +16,10 @@ Inductive c12case :=
 | CWrite (defs : list (uid * list event)) (dm : dmodel) (me : key) (h : mhead) (nadd : N)
 | CDelNode (defs : list (uid * list event)) (me : key) (now : Z) (n : dnode)
 | CDelRef (defs : list (uid * list event)) (me : key) (now : Z) (src : dnode) (edge_author : key)
-| CJson (fs : list lfield) (lits : list (N * lit)).
+| CJson (fs : list lfield) (lits : list (N * lit))
+(* a creation (or an update) of a row by a caller who has every right: only the size limit decides.
+   `signed` describes the row as signed by the caller. *)
+| CSize (max : N) (update : bool) (signed : srow).
 
 Definition good_json : option json := Some [(32%N, JStr false)].
 
@@ -106,6 +109,11 @@ Definition run_C12 (c : c12case) : list Z :=
           [local; zb (edel_ok rooms st (ref_tombstone me rid now edge));
            zb (validate_node rooms x (dn_room src) (Some (dn_author src)))]
       end
+  | CSize max update signed =>
+      (* [local verdict; the size the local path reports when it refuses; peer verdict; the size of the signed row] *)
+      let big := exceeds max (local_measured signed) in
+      [if big then 3 else 0; if big then zn (local_measured signed) else -1;
+       zb (negb (exceeds max (peer_measured signed))); zn (node_size signed)]
   | CJson fs lits =>
       match local_store fs lits with
       | Some j => [1; zb (conform (map lf fs) (Some j))] ++ map (fun f => jcode (jget j (f_short (lf f)))) fs
@@ -140,6 +148,9 @@ Definition violations12 (c : c12case) (obs : list Z) : list Z :=
       | Some _ => let all_in := Z.eqb t 1 && Z.eqb n 1 in
                   if Z.eqb l 0 then (if all_in then [] else [0]) else (if all_in then [0] else [])
       end
+  | CSize max update signed, [l; sz; p; real] =>
+      (* same verdict on the limit; a local refusal names the size of the signed row *)
+      if (Z.eqb l 0 && Z.eqb p 1) || (Z.eqb l 3 && Z.eqb p 0 && Z.eqb sz real) then [] else [0]
   | CJson fs lits, l :: r :: kinds =>
       if Z.eqb l 1 && negb (Z.eqb r 1) then
         let scal := existsb (fun p => match f_type (lf (fst p)) with
